@@ -97,7 +97,9 @@ def execute(sched: dict) -> dict:
         if k in ("CRASH_RESTART", "THREAD", "BLAS", "CLOCK", "RNG") and c == "done":
             stats["faults_fired"][k] = stats["faults_fired"].get(k, 0) + 1
         ab = out.get("abort")
-        if ab:
+        if ab and ab.get("sweep"):
+            stats["faults_fired"]["ABORT_SWEEP_POINTS"] = stats["faults_fired"].get("ABORT_SWEEP_POINTS", 0) + out.get("fired", 0)
+        elif ab:
             name = "ABORT_IN_OP" if ab.get("fired") else "ABORT_NOT_FIRED"
             stats["faults_fired"][name] = stats["faults_fired"].get(name, 0) + 1
         fam = (out.get("facts") or {}).get("fam") or out.get("fam") or out.get("dfam")
